@@ -81,6 +81,30 @@ func rulePersistBeforeServe(c *Ctx) {
 				// fresh state id: the StateID of the installed status is the result of AllocID in this function, after its success
 				cell := cellOf(v)
 				okID := false
+				// the status may be handed on through copies (a parameter cell of a helper written in place): follow
+				// whole-value stores back to the cell the fields were written to
+				for hop := 0; hop < 3 && cell != nil; hop++ {
+					hasField := false
+					var from *ssa.Alloc
+					for _, r := range *cell.Referrers() {
+						if fa, ok := r.(*ssa.FieldAddr); ok && fieldOfAddr(fa) == stID {
+							for _, rr := range *fa.Referrers() {
+								if s2, ok := rr.(*ssa.Store); ok && s2.Addr == ssa.Value(fa) {
+									hasField = true
+								}
+							}
+						}
+						if s2, ok := r.(*ssa.Store); ok && s2.Addr == ssa.Value(cell) {
+							if c2 := cellOf(s2.Val); c2 != nil && c2 != cell {
+								from = c2
+							}
+						}
+					}
+					if hasField || from == nil {
+						break
+					}
+					cell = from
+				}
 				if cell != nil {
 					for _, r := range *cell.Referrers() {
 						fa, ok := r.(*ssa.FieldAddr)
